@@ -98,6 +98,16 @@ class _Null:
         pass
 
 
+def _flag_name(fn):
+    """the boolean set from the choices (`let mut simplify = false`), whatever it is called"""
+    for s_ in A.find(fn["body"], "Let"):
+        p = s_["pat"]["pat"] if s_["pat"].get("k") == "PType" else s_["pat"]
+        init = A.strip(s_.get("init") or {})
+        if p.get("k") == "PIdent" and p.get("mut") and init.get("k") == "Lit" and init.get("ty") == "bool" and init.get("v") == "false":
+            return p["name"]
+    return "simplify"
+
+
 def r3_trace_iff_flag(rule, root=None):
     for label in ("interval", "point"):
         fn, _ = V.loop_fn(label, root)
@@ -105,23 +115,28 @@ def r3_trace_iff_flag(rule, root=None):
         e = A.strip(A.stmt_expr(tail) or {})
         ok = False
         why = "the function must end with Ok((&self.0.out, if simplify { Some(&self.0.choices) } else { None }))"
+        flag = _flag_name(fn)
         if e.get("k") == "Call" and A.is_path(e["func"], "Ok") and len(e["args"]) == 1:
             tup = A.strip(e["args"][0])
             if tup.get("k") == "Tuple" and len(tup["elems"]) == 2:
                 o = A.ftxt(A.strip(tup["elems"][0]))
-                c = A.strip(tup["elems"][1])
-                if c.get("k") == "If" and c.get("else") is not None:
-                    cond = A.ftxt(A.strip(c["cond"]))
-                    th = A.ftxt(c["then"])
-                    el = A.ftxt(c["else"])
-                    if o != "self.0.out":
-                        why = "outputs returned are `%s`, not the evaluator's output array" % o
-                    elif cond != "simplify":
-                        why = "the trace is returned under `%s`, not under the simplify flag" % cond
-                    elif th != "{Some(&self.0.choices)}" or el != "{None}":
-                        why = "branches are `%s` / `%s`" % (th, el)
-                    else:
-                        ok = True
+                second = A.strip(tup["elems"][1])
+                if A.ident(second):
+                    # a local naming the trace: read what it was bound to
+                    lets = [s_ for s_ in A.find(fn["body"], "Let") if A.binding_name(s_["pat"]) == A.ident(second) and s_.get("init") is not None]
+                    if len(lets) == 1:
+                        second = lets[0]["init"]
+                cases = [(str(A.ftxt(leaf)), cs) for leaf, cs in A.value_cases(second)]
+                some = [cs for v, cs in cases if v == "Some(&self.0.choices)"]
+                none = [cs for v, cs in cases if v == "None"]
+                if o != "self.0.out":
+                    why = "outputs returned are `%s`, not the evaluator's output array" % o
+                elif len(cases) != 2 or len(some) != 1 or len(none) != 1:
+                    why = "the trace component is %s" % cases
+                elif some[0] != [flag] or none[0] != ["!" + flag]:
+                    why = "the trace is returned under `%s`, not under the simplify flag `%s`" % (" && ".join(some[0]), flag)
+                else:
+                    ok = True
         if ok:
             rule.ok("%s: trace returned iff the flag is set" % label, file=V.VM, line=tail["ln"])
         else:
